@@ -1,2 +1,8 @@
 // C06: the program /c06/uobj inherits.  No variables: the harness addresses x0..x3 of /c06/uobj as variables 0..3.
 mixed base_fn (mixed x) { return ({ x }); }
+// function pointers compiled into THIS program, made while an object that inherits it runs this code:
+// make_functional_funp counts them on this program's func_ref (current_prog), dealloc_funp releases them there
+mixed mkff_base (int anon) {
+  if (anon) return function (mixed x) { return ({ x }); };
+  return (: ({ $1 }) :);
+}
